@@ -361,6 +361,30 @@ def real_binary(ctx, quick, rng, kept):
         fs = kept.get(t, [])
         for f in rng.sample(fs, min(n, len(fs))):
             jobs.append((t, f))
+    # always part of the sample: text that ends up quoted in ninja's own diagnostics (a diagnostic that is used as a
+    # format string, or copied into a fixed buffer, only fails on particular content)
+    fmt = "%s%s%s%n%s%n%d%c%s%s%s%s%n"
+    extra = {
+        "dyndep": ["ninja_dyndep_version = 1\nbuild %s: dyndep\n" % fmt,
+                   "ninja_dyndep_version = 1\nbuild out | %s: dyndep\nbuild out2 | imp: dyndep\n" % fmt,
+                   "ninja_dyndep_version = 1\nbuild out: dyndep | %s\nbuild out2 | imp: dyndep\n" % fmt,
+                   "ninja_dyndep_version = %s\n" % fmt, "ninja_dyndep_version = 1\nbuild out: dyndep\n  %s = 1\n" % fmt,
+                   "ninja_dyndep_version = 1\n%s\n" % fmt, "ninja_dyndep_version = 1\nbuild out %s\n" % fmt,
+                   "ninja_dyndep_version = 1\nbuild out: dyndep\nbuild out: dyndep\nbuild out2 | imp %s: dyndep\n" % fmt],
+        "manifest": ["rule r\n  command = %s\nbuild %s: r %s\ndefault %s\n" % (fmt, "a" + fmt, "b" + fmt, "nosuch" + fmt),
+                     "rule %s\n  command = x\nbuild a: nosuch%s\n" % (fmt, fmt), "%s\n" % fmt, "build a: phony %s\n  pool = %s\n" % (fmt, fmt),
+                     "include %s\n" % fmt, "subninja %s\n" % fmt, "pool %s\n  depth = %s\n" % (fmt, fmt)],
+        "depfile": ["%s: %s\n" % (fmt, fmt), "out %s: in\n" % fmt, "out: in\nin %s: x\n" % fmt, "%s\n" % fmt],
+    }
+    k = 0
+    for t, texts in extra.items():
+        os.makedirs(os.path.join("/dev/shm", "nfuzz-%d-extra" % os.getpid()), exist_ok=True)
+        for txt in texts:
+            f = os.path.join("/dev/shm", "nfuzz-%d-extra" % os.getpid(), "%s-%d" % (t, k))
+            k += 1
+            with open(f, "wb") as fh:
+                fh.write(txt.encode("latin-1"))
+            jobs.append((t, f))
     ninja = e2e.ninja_bin()
 
     def one(job):
@@ -392,7 +416,9 @@ def real_binary(ctx, quick, rng, kept):
                     fh.write(c)
             env = build.san_env()
             env["TERM"] = "dumb"
-            for args in ([], ["-n"], ["-t", "clean"], ["-t", "deps"], ["-t", "recompact"], ["-t", "cleandead"], ["-t", "commands"]):
+            for args in ([], ["-n"], ["-t", "clean"], ["-t", "deps"], ["-t", "recompact"], ["-t", "cleandead"], ["-t", "commands"],
+                         ["-t", "query", "out"], ["-t", "query", "out2", "x"], ["-t", "graph"], ["-t", "inputs", "x"], ["-t", "targets", "all"],
+                         ["-t", "compdb"], ["-t", "missingdeps"], ["-d", "explain", "-n", "x"]):
                 try:
                     p = subprocess.run([ninja, "-j2"] + args if not args or args[0] != "-t" else [ninja] + args, cwd=d, env=env,
                                        stdout=subprocess.PIPE, stderr=subprocess.PIPE, timeout=60)
